@@ -59,6 +59,37 @@ theorem C19_eq_is_name_eq (g h : Group) : groupEq g h = true ↔ g.name = h.name
 theorem C19_eq_str (g : Group) (s : Name) : groupEqStr g s = true ↔ g.name = s := by
   simp [groupEqStr]
 
+/-- A library entry table as Python's `dict` sees it: a group's hash and equality go through its canonical name, so a
+lookup with a group is a lookup with that name (`Library.py` indexes `self.contents` this way). -/
+def libGet {α : Type} (lib : List (Name × α)) (g : Group) : Option α := lib.lookup g.name
+
+/-- **T5** two well-formed groups index the same entry of *every* library exactly when they have the same centre and the
+same multiset of peripherals. -/
+theorem C19_index_same_entry (c c' : Name) (ps ps' : List Name) (h : WFGroup c ps) (h' : WFGroup c' ps') :
+    (∀ lib : List (Name × Unit), libGet lib ⟨c, ps⟩ = libGet lib ⟨c', ps'⟩) ↔ c = c' ∧ ps.Perm ps' := by
+  rw [← C19_canon_eq_iff c c' ps ps' h h']
+  constructor
+  · intro H
+    have h1 := H [(canon c ps, ())]
+    by_cases e : canon c ps = canon c' ps'
+    · exact e
+    · have e' : (canon c' ps' == canon c ps) = false := by
+        simp only [beq_eq_false_iff_ne, ne_eq]; exact fun x => e x.symm
+      simp [libGet, Group.name, List.lookup, e'] at h1
+  · intro e lib
+    simp [libGet, Group.name, e]
+
+/-- **T5'** a group and its canonical name as a plain string find the same entry. -/
+theorem C19_index_by_string {α : Type} (lib : List (Name × α)) (g : Group) :
+    libGet lib g = lib.lookup g.name := rfl
+
+/-- **T4'** group equality is an equivalence relation (it is equality of names). -/
+theorem C19_eq_equivalence (g h k : Group) :
+    groupEq g g = true ∧ (groupEq g h = groupEq h g) ∧ (groupEq g h = true → groupEq h k = true → groupEq g k = true) := by
+  refine ⟨by simp [groupEq], ?_, ?_⟩
+  · simp only [groupEq]; exact BEq.comm
+  · simp only [groupEq, beq_iff_eq]; exact fun a b => a.trans b
+
 /-- Error clause: a repeat count with no peripheral before it is the group syntax error. -/
 theorem C19_count_without_name (part : Name) (rest : List Name) (acc : List Name)
     (h : part.isEmpty = false) (hd : isDigitStr part = true) :
